@@ -8,3 +8,15 @@ chk("C09", "algebraic-law monitor on the real issuance functions (additivity, to
 chk("C01", "crash-point fault injection (verif hook) + on-disk snapshot / real SIGKILL, recovery through the production InitLedger path, differential against an uncrashed reference run",
     "Every one of the 6 crash points of submitBlock is enumerated at every block of seeded chains (both commit paths, mixed tx kinds incl. EVM); each yields the directory a process death would leave, which is reopened with the real recovery code and compared (full state-DB dump, all state merkle roots, block merkle root, event notifies, merkle proofs) with the uncrashed reference at the recovered height, then fed the next reference blocks, then reopened again. Recoveries that replay a block are themselves crashed at 3 recovery points; the eagerly appended merkle hash file is torn at every 32-byte boundary and mid-hash; a child process is SIGKILLed for real at sampled firings.",
     "process death only (page cache survives), LevelDB's own write atomicity trusted; chains of 12 (quick) / 36x5 (thorough) blocks", category="fault_enumeration")
+
+chk("C39", "mutation monitor on valid next blocks (bytes -> decode -> AddBlock / ExecuteBlock+SubmitBlock) with full-ledger fingerprint before/after",
+    "At sampled heights of solo, 4- and 7-bookkeeper chains a valid next block is built and ~25 single-field mutants (height, prev hash, timestamp, block root, tx root, tx list, signature count/validity/signer, state-root argument), re-signed where needed so exactly one check can reject them, are offered through both commit paths; each must return an error and leave height, hashes, the full state-DB dump, all merkle roots and the header index unchanged; the valid block must then still commit with the reference result.",
+    "blocks reach the ledger as bytes; VBFT header signature rules are C32's subject")
+
+chk("C40", "cross-query consistency monitor over committed block bytes, across clean and crash-style restarts, concurrent readers under the race detector (thorough)",
+    "Every query family (hash by height, block by height/hash, header by hash/height, raw header, transaction by hash with height, containment) is compared with the bytes of the block that was committed, for all heights of short chains and for window + random + header-index-cache-edge heights of a >2000-block chain, live, after Close+reopen and after reopening a copy taken while running; unknown hashes/heights must give not-found.",
+    "solo chains built like consensus/solo.makeBlock; pruning disabled")
+
+chk("C42", "state-fingerprint and on-disk-dump invariance monitor around every read-only entry point + differential against a reference ledger that never pre-executed",
+    "Hundreds of seeded pre-execution requests that would write (token transfers with fee, storage put/delete, approve, deploy, contract destroy, notify, EVM transfer and create+SSTORE+LOG) go through PreExecuteContract, PreExecuteContractBatch(atomic t/f), PreExecuteEIP155, PreExecuteEip155Tx and TraceEip155Tx; API-level fingerprint after requests, byte dump of every store directory and a probe block's execution per batch must be unchanged; the ledger then commits further blocks in lock-step with a reference ledger; a concurrent variant races pre-executions with commits (race detector in thorough).",
+    "WASM pre-execution not driven (JIT unavailable in this sandbox)")
